@@ -4,11 +4,11 @@ mutants and arity mismatches (wf_pil, extracted from Coq, evaluated on the real 
 import copy, random, re
 import framework as fw
 import pepper
-from props import c01, c08
+from props import c01, c02, c08
 
 ID = "C09"
 LEVEL = "proof"
-THEOREMS = ["C09_emit_wf_pil", "C09_wf_check_sound", "C09_wf_check2_sound", "C09_compiled_struct_balanced", "C09_domain_struct_balanced", "C09_accepted_wf_pil", "C09_reserved_names", "C09_wf_pil_documents_load"]
+THEOREMS = ["C09_emit_wf_pil", "C09_wf_check_sound", "C09_wf_check2_sound", "C09_compiled_struct_balanced", "C09_domain_struct_balanced", "C09_accepted_wf_pil", "C09_reserved_names", "C09_wf_pil_documents_load", "C09_loaded_system_wf_pil", "C09_names_okb_sound"]
 TRUSTED = c01.TRUSTED
 ASSUMPTIONS = c01.ASSUMPTIONS
 
@@ -207,7 +207,27 @@ def run(tier, seed, build):
         if c["kind"] == "ast":
             fs = c01.compare({"prog": c["prog"], "text": c["text"]}, model[i], r)
             failures += [f for f in fs if f["kind"] != "predicate" or f["key"].startswith("pil-illformed") or f["key"] == "unreadable"]
-    return {"evaluations": len(cases), "distinct_nontrivial": len(nontrivial),
+    # whole systems (C09_loaded_system_wf_pil): the real output of every accepted nested system passes the extracted predicate,
+    # and the model's name hypothesis (identifiers without '-') holds of the loaded object
+    scases = [c02.gen_case(rng) for _ in range(40 if tier == "quick" else 600)]
+    simpl = fw.run_impl("props.c02", "impl_case", [{k: v for k, v in c.items() if not k.startswith("_")} for c in scases], per_case_timeout=60)
+    sreqs = []; swhere = []
+    for i, (c, r) in enumerate(zip(scases, simpl)):
+        if isinstance(r, dict) and r.get("outcome") == "ok" and r.get("lines") is not None:
+            sreqs.append(["wfpil", lines_sexp(r["lines"])]); swhere.append((i, "wf"))
+            sreqs.append(c02.model_req(c, r.get("ctr0", 0))); swhere.append((i, "sys"))
+    dist["systems"] = 0; dist["system_names_ok"] = 0
+    for (i, tag), m in zip(swhere, fw.run_model(sreqs)):
+        c = scases[i]
+        rep = {"files": c["files"], "argv": "pepper-compiler %s %s %s" % (c["base"], " ".join(map(str, c["args"])), " ".join("-I " + x for x in c["includes"]))}
+        if tag == "wf":
+            dist["systems"] += 1
+            if m != "T":
+                failures.append({"kind": "predicate", "key": "system-wf_pil", "summary": "the specification emitted for an accepted system violates the well-formedness predicate", "replay": rep})
+        elif m[0] == "Ok" and len(m[1]) > 2:
+            if m[1][2] == ["T"]: dist["system_names_ok"] += 1
+            else: failures.append({"kind": "tie", "key": "names-okb", "summary": "a loaded system does not pass names_okb, the hypothesis of the system-level theorem", "replay": rep})
+    return {"evaluations": len(cases) + len(scases), "distinct_nontrivial": len(nontrivial),
             "rule": "45% AST mutants of generated valid components (delete/duplicate/swap statements, perturb multipliers / lengths / run lengths, rename or star a reference, change a structure symbol, toggle `domain`, change the strand list; 30% doubly mutated) compared model vs implementation; 40% token-level text mutants (delete/duplicate/swap a token, perturb a number, insert a star, replace a bracket); 15% parameterised templates with wrong argument counts. On every accepted case the Coq-extracted predicate wf_pil is evaluated on the real .pil. Non-trivial = mutant that is still accepted",
             "samples": [c["text"] for c in cases[:3]], "distribution": dist, "failures": failures}
 
